@@ -1,4 +1,5 @@
 import Model.Train
+import Proofs.NoDropout
 
 /-!
 # C09 — dropout never leaks into prediction or validation
@@ -141,5 +142,39 @@ theorem learn_exit_all_off (n : Network α) (inputs targets : List (Tensor α))
     · simp only [Except.ok.injEq] at h
       subst h
       exact setAllTraining_flags _ false
+
+/-! ### … and predicts like the same network built without dropout
+
+`NoDropout.network n` is `n` with no dropout configured anywhere (every dense, convolution and
+deconvolution layer, inside feedback blocks too); connections, loops, objective and parameters unchanged. -/
+
+/-- **with every flag off, the whole forward pass — through feedback blocks, skip connections and loop
+    connections — records exactly the trace of the network built without dropout** -/
+theorem flags_off_forward_like_dropout_free (n : Network α) (h : ∀ f ∈ n.flags, f = false) (x : Tensor α) :
+    n.forward x = (NoDropout.network n).forward x :=
+  (NoDropout.forward_eq n (NoDropout.flagsOff_of_flags n h) x).symm
+
+theorem flags_off_predicts_like_dropout_free (n : Network α) (h : ∀ f ∈ n.flags, f = false) (x : Tensor α) :
+    n.predict x = (NoDropout.network n).predict x :=
+  (NoDropout.predict_eq n (NoDropout.flagsOff_of_flags n h) x).symm
+
+/-- **after `learn` returns, the network predicts exactly like an identical network configured without
+    dropout** — for every architecture, data set, validation setting, batch size and number of epochs -/
+theorem after_learn_predicts_like_dropout_free (n : Network α) (inputs targets : List (Tensor α))
+    (validation : Option (List (Tensor α) × List (Tensor α) × Nat)) (batch epochs : Nat) (script : List α)
+    (res : LearnResult α) (h : n.learn inputs targets validation batch epochs script = .ok res) (x : Tensor α) :
+    res.net.predict x = (NoDropout.network res.net).predict x :=
+  flags_off_predicts_like_dropout_free res.net
+    (learn_exit_all_off n inputs targets validation batch epochs script res h) x
+
+/-- **the validation metrics — also those `learn` computes while every flag is on — are the metrics of
+    the network built without dropout** -/
+theorem validate_metrics_are_dropout_free (n : Network α) (t : Bool) (xs ts : List (Tensor α)) (tol : α) :
+    NoDropout.metrics ((n.setAllTraining t).validate xs ts tol) =
+      NoDropout.metrics ((NoDropout.network n).validate xs ts tol) := by
+  rw [NoDropout.validate_eq n]
+  unfold validate
+  simp only [setAllTraining_idem]
+  split <;> rfl
 
 end C09
